@@ -247,6 +247,14 @@ func queryWorker(prom *Prometheus, queries chan queryRequest) {
 func processJob(prom *Prometheus, job queryRequest) queryResult {
 	defer verifJob("reply", job)
 	cacheKey := job.query.CacheKey()
+	// Serialise cache lookup, request and cache fill per cache key. Callers only hold the lock of
+	// their own question, but different questions can fan out into the same request (two range
+	// queries with different lookbacks share their aligned slices), which would otherwise be sent
+	// twice and be in flight at the same time.
+	jobKey := "job/" + strconv.FormatUint(cacheKey, 16)
+	prom.locker.lock(jobKey)
+	defer prom.locker.unlock(jobKey)
+
 	if prom.cache != nil {
 		if cached, ok := prom.cache.get(cacheKey, job.query.Endpoint()); ok {
 			return cached.(queryResult)
